@@ -49,6 +49,7 @@ def _sq_units():
 
 
 HARNESSES = {
+    "iter": dict(units=[dict(src="iter.cpp")]),
     "seq": dict(units=_sq_units()),
     "any": dict(units=[dict(src="any.cpp")]),
     "variant": dict(units=[dict(src="variant.cpp")]),
@@ -239,6 +240,26 @@ PROPS["C11"] = dict(
                  "allocation failure is not injected: the property does not speak about exceptions and resizing two independent vectors cannot be atomic"],
 )
 
+PROPS["C12"] = dict(
+    level="exploration",
+    batches=dict(
+        quick=[dict(harness="iter", build="san", runs=300000, wall_cap=600)],
+        thorough=[dict(harness="iter", build="san", runs=2000000, wall_cap=2400),
+                  dict(harness="iter", build="plain", runs=8000000, offset=2000000, wall_cap=2400)],
+    ),
+    rule=("a case is one seeded walk (1-40 steps) of two walker actors, each holding an iterator of the run's kind and a model index, over a container of 0-40 elements "
+          "(kinds: bitset iterators of three block types incl. const; optional/complex vector and array iterators, const and reverse; xstepping_iterator with steps 1,2,3,5; key and value iterators over a map; "
+          "a minimal iterator deriving from xrandom_access_iterator_base and xrandom_access_iterator_ext). Steps: ++ -- it++ it-- += -= it+n n+it it-n it[n] a-b, the six comparisons, dereference, write, the size_t overloads, "
+          "full forward and backward traversal, container resize with walkers re-seated. Every result is compared with index arithmetic on the model; both walkers are re-validated after every step. "
+          "There is no fault or environment dimension in this property (stated in DESIGN.md 4.8). Non-trivial: at least two position-changing steps. Distinct: distinct run digests."),
+    probes=["post_increment", "write_through_iterator", "size_t_overload_used", "traversal_of_empty_container", "container_resized_walkers_reseated"],
+    components=dict(real=["include/xtl/xiterator_base.hpp (xbidirectional_iterator_base, xrandom_access_iterator_base, xrandom_access_iterator_ext, xkey_iterator, xvalue_iterator, xstepping_iterator)",
+                          "include/xtl/xdynamic_bitset.hpp (xbitset_iterator)", "include/xtl/xoptional_sequence.hpp (xoptional_iterator)", "include/xtl/xcomplex_sequence.hpp (xcomplex_iterator)"],
+                    stub=["integer model index per walker", "a minimal derived iterator as in the repository's own test"]),
+    assumptions=["offsets keep every result inside [begin, end]; operators a kind does not provide (bidirectional kinds have no <, +, -) are not called",
+                 "xstepping_iterator is only used with a positive step and a range whose length is a multiple of the step"],
+)
+
 PENDING = "claimed in DESIGN.md section 4 but its harness is not built yet in this tree; listed here until the check exists"
 NOT_APPLICABLE = {
     "C04": "pure function of the operands of one call (presence flags and values); no history, fault position, schedule or environment to simulate (DESIGN.md 5)",
@@ -291,6 +312,12 @@ MANIFEST_TEXT = {
         design_ref="4.7",
         note="sampled histories; dirty-memory placement is the fault that makes forgotten initialisation deterministic; no allocation faults",
         technique="deterministic simulation: seeded multi-actor histories against a reference model, dirty-memory placement",
+    ),
+    "C12": dict(
+        text="seeded walks of two iterator-holding actors over every iterator kind built on the xtl iterator bases, each step's result compared with index arithmetic (it++ returns the old position, (it+n)-it==n, it[n]==*(it+n), n+it==it+n, it-n undoes it+n, a<b iff b-a>0, <= > >= reversals, != negation, full traversals, size_t overloads). This is the weakest claim: the property has histories but no fault, clock or environment for the simulator to control",
+        design_ref="4.8",
+        note="sampled walks; purely a stateful differential check against an index model",
+        technique="deterministic simulation (degenerate: seeded walker histories against an index model, no fault dimension)",
     ),
     "C14": dict(
         text="hash coherence across simulated histories: std::hash of every fixed string equals the reference MurmurHash64A of its characters after every step, equal contents reached by different histories (different stale bytes), in different layouts and capacities hash equally; the byte hashes are additionally evaluated on the buffers the simulation produces at every alignment in exact-size blocks against an independent reference (that half is evaluation of a pure function on simulated states and is reported under its own counter)",
